@@ -57,7 +57,12 @@ def gen_relay(rng):
           [["wait", interval * rng.choice([1, 2]) + 5]] + [["send", json.dumps(["EVENT", e])] for e in evs[half:]] + \
           [["wait", interval + 5], ["send", json.dumps(["REQ", "after", {"kinds": [20000, 25000, 29999]}])],
            ["send", json.dumps(["REQ", "all", {"since": 1}])]]
-    return {"mode": "relay", "backend": backend, "interval": interval,
+    # one engine error somewhere in the run (SQL): if it lands in a collection pass, that pass fails - the
+    # collector must carry on at the next interval
+    fault = rng.randint(3, 160) if backend == "sql" and rng.random() < 0.4 else None
+    if fault is not None and rng.random() < 0.5:
+        pub.insert(len(pub) - 2, ["wait", interval + 5])       # room for one more pass
+    return {"mode": "relay", "backend": backend, "interval": interval, "fault": fault,
             "clients": [{"script": sub}, {"script": pub}]}
 
 
@@ -67,6 +72,13 @@ def run_relay(case, sim):
     from ..worlds import relay
     backend = case["backend"]
     w = relay.RelayWorld(sim, backend, case["clients"], gc_interval=case["interval"], message_timeout=10 ** 6)
+    spare = 0
+    if case.get("fault") is not None:
+        spare = 1           # one pass may have been the one that failed
+
+        async def arm(world):
+            sim.sql.global_faults[sim.sql.call_no + case["fault"]] = "disk I/O error"
+        w.before_clients = arm
     w.run()
     viol = []
     probes = collections.Counter()
@@ -124,7 +136,7 @@ def run_relay(case, sim):
                              "detail": {"event": oracles.brief(ev), "pushes": live[ev["id"]]}})
             # a pass ran between its submission and the later REQ?
             if t_req_after is not None:
-                passes_between = int((t_req_after - histgen.T0) // interval) > int((t_sub - histgen.T0) // interval)
+                passes_between = int((t_req_after - histgen.T0) // interval) - int((t_sub - histgen.T0) // interval) > spare
                 if passes_between and any(a["id"] == ev["id"] for a in after):
                     viol.append({"cls": "ephemeral-queryable-after-pass", "sig": "ephemeral-queryable-after-pass|%s" % backend,
                                  "detail": {"event": oracles.brief(ev)}})
@@ -136,7 +148,7 @@ def run_relay(case, sim):
             k0 = int((t_sub - histgen.T0) // interval) + 1
             k1 = int((t_end - histgen.T0) // interval)
             pass_times = [histgen.T0 + k * interval for k in range(k0, k1 + 1)]
-            if any(v < p - 1 for p in pass_times) and ev["id"] in final:
+            if sum(1 for p in pass_times if v < p - 1) > spare and ev["id"] in final:
                 viol.append({"cls": "expired-not-collected", "sig": "expired-not-collected|%s|%ddigits" % (backend, len(exps[0])),
                              "detail": {"event": oracles.brief(ev), "passes": pass_times[:4]}})
             if all(v > p + 1 for p in pass_times) and ev["id"] not in final:
